@@ -113,7 +113,8 @@ func (d *DUT) EstablishedFSM(p *Peer) (*server.VerifFSM, int) {
 	fs := d.FSMs(p)
 	for i := range fs {
 		if fs[i].State == "established" {
-			if res == nil {
+			// with several Established FSMs (C24's subject) prefer the one on the peer's current connection
+			if res == nil || (p.conn != nil && fs[i].Con == p.conn) {
 				res = &fs[i]
 			}
 			n++
